@@ -60,6 +60,11 @@ func (vc *VC) execCall(fr *frame, n *Node, x *ssa.Call) {
 			vc.callSiteAsserts(fr, n, x, contractName(sc), args)
 		}
 	}
+	if fr.fc != nil && fr == vc.top {
+		if sc := c.StaticCallee(); sc != nil {
+			vc.mustCallMark(fr, n, x, contractName(sc), args)
+		}
+	}
 	if c.IsInvoke() {
 		recv := vc.value(fr, n, c.Value)
 		vc.safety(fr, n, "nil", "interface receiver is non-nil", x.Pos(), not(fmt.Sprintf("(= %s nil.iface)", recv.T)))
@@ -792,67 +797,7 @@ func (vc *VC) callSiteAsserts(fr *frame, n *Node, x *ssa.Call, callee string, ar
 			continue
 		}
 		cs.Hits++
-		lookup := func(name string) (Val, bool) {
-			if strings.HasPrefix(name, "$arg") {
-				var k int
-				if _, err := fmt.Sscanf(name[4:], "%d", &k); err == nil && k >= 0 && k < len(args) {
-					return args[k], true
-				}
-				return Val{}, false
-			}
-			if v, ok := vc.paramLookup(fr, name); ok {
-				return v, true
-			}
-			for b := n.blk; b != nil; b = b.Idom() {
-				for _, in := range b.Instrs {
-					phi, ok := in.(*ssa.Phi)
-					if !ok {
-						break
-					}
-					if phi.Comment == name {
-						if v, ok := n.env[phi]; ok {
-							return v, true
-						}
-					}
-				}
-			}
-			// other named locals through debug references: the latest definition that dominates the call
-			if fr.dbg != nil {
-				var best *ssa.DebugRef
-				for obj, drs := range fr.dbg.byObj {
-					if obj.Name() != name {
-						continue
-					}
-					for _, dr := range drs {
-						if dr.IsAddr {
-							continue
-						}
-						in, isIn := dr.X.(ssa.Instruction)
-						if isIn {
-							db := in.Block()
-							if !(db == n.blk && instrIndex(dr.X) < instrIndex(x)) && !(db != n.blk && db.Dominates(n.blk)) {
-								continue
-							}
-						}
-						if _, ok := n.env[dr.X]; !ok {
-							continue
-						}
-						if best == nil {
-							best = dr
-							continue
-						}
-						bb, cb := blockOf(best.X), blockOf(dr.X)
-						if bb == nil || (cb != nil && bb != cb && bb.Dominates(cb)) || (cb != nil && bb == cb && instrIndex(dr.X) > instrIndex(best.X)) {
-							best = dr
-						}
-					}
-				}
-				if best != nil {
-					return n.env[best.X], true
-				}
-			}
-			return Val{}, false
-		}
+		lookup := vc.nodeLookup(fr, n, x, args)
 		entryLookup := func(name string) (Val, bool) { return vc.paramLookup(fr, name) }
 		ctx := &SpecCtx{vc: vc, lookup: lookup, st: n.st, oldSt: fr.entrySt, oldLookup: entryLookup, pkg: fr.fn.Pkg.Pkg, fnName: fr.fn.Name(), fr: fr}
 		t, err := ctx.EvalBool(cs.C.E)
@@ -861,5 +806,72 @@ func (vc *VC) callSiteAsserts(fr *frame, n *Node, x *ssa.Call, callee string, ar
 			continue
 		}
 		vc.oblige("assert", fmt.Sprintf("callsite.%s%s.b%d", callee, labelOr(cs.C.Label, 0), n.blk.Index), cs.C.Text, vc.pos(x.Pos()), n.reach, t)
+	}
+}
+
+// nodeLookup resolves source-level names at a program point: node n, before instruction x (nil: at the end of the
+// block). $argN are the arguments of the call at x; parameters; the nearest dominating phi carrying the name; other
+// named locals through debug references (the latest definition that dominates the point).
+func (vc *VC) nodeLookup(fr *frame, n *Node, x *ssa.Call, args []Val) func(string) (Val, bool) {
+return func(name string) (Val, bool) {
+		if strings.HasPrefix(name, "$arg") {
+			var k int
+			if _, err := fmt.Sscanf(name[4:], "%d", &k); err == nil && k >= 0 && k < len(args) {
+				return args[k], true
+			}
+			return Val{}, false
+		}
+		if v, ok := vc.paramLookup(fr, name); ok {
+			return v, true
+		}
+		for b := n.blk; b != nil; b = b.Idom() {
+			for _, in := range b.Instrs {
+				phi, ok := in.(*ssa.Phi)
+				if !ok {
+					break
+				}
+				if phi.Comment == name {
+					if v, ok := n.env[phi]; ok {
+						return v, true
+					}
+				}
+			}
+		}
+		// other named locals through debug references: the latest definition that dominates the call
+		if fr.dbg != nil {
+			var best *ssa.DebugRef
+			for obj, drs := range fr.dbg.byObj {
+				if obj.Name() != name {
+					continue
+				}
+				for _, dr := range drs {
+					if dr.IsAddr {
+						continue
+					}
+					in, isIn := dr.X.(ssa.Instruction)
+					if isIn {
+						db := in.Block()
+						if !(db == n.blk && (x == nil || instrIndex(dr.X) < instrIndex(x))) && !(db != n.blk && db.Dominates(n.blk)) {
+							continue
+						}
+					}
+					if _, ok := n.env[dr.X]; !ok {
+						continue
+					}
+					if best == nil {
+						best = dr
+						continue
+					}
+					bb, cb := blockOf(best.X), blockOf(dr.X)
+					if bb == nil || (cb != nil && bb != cb && bb.Dominates(cb)) || (cb != nil && bb == cb && instrIndex(dr.X) > instrIndex(best.X)) {
+						best = dr
+					}
+				}
+			}
+			if best != nil {
+				return n.env[best.X], true
+			}
+		}
+		return Val{}, false
 	}
 }
